@@ -134,3 +134,10 @@ Theorem save_mesh_is_what_the_source_says : forall (T C : Type) (N : Num T) (flo
     else (s, []).
 Proof. intros; reflexivity. Qed.
 Print Assumptions save_mesh_is_what_the_source_says.
+
+(* A FACT READ FROM THE SOURCE ON EVERY RUN (Facts_gen.v): the solver removes the output folder before it creates and uses it, so
+   the files found in the folder after a run are the files of that run (the premise of every statement above about "the files"). *)
+From SC Require Facts_gen.
+Theorem output_folder_is_fresh : Facts_gen.facts_translation_ok = true /\ Facts_gen.output_folder_is_wiped_before_use = true.
+Proof. split; reflexivity. Qed.
+Print Assumptions output_folder_is_fresh.
